@@ -15,8 +15,11 @@ Only a slice of the property is within reach of solver-based checking (DESIGN.md
 * O8 (PX): the real source of `combine_mesh` / `combine_nodesets` / `combine_sidesets` / `combine_blocks` on meshes whose node and element counts and whose
   node-set / side-set / block entries are symbolic integers (offsets, ranges, member counts, inputs not mutated, merge(a,b) then merge(a,c)).
 
-Everything that quantifies over topologies or files (arbitrary meshes, `create_edges` adjacency on arbitrary connectivity, both file readers) is
-outside the claim: see OUTSIDE.
+* O9 (PX): the real source of `ReadExodusMesh.read_exodus_mesh` on in-memory multi-block files with symbolic element counts per block (block partition and
+  offsets, 0-based conversion, block maps, node / side sets); replay writes a real netCDF file.
+
+Everything that quantifies over topologies (arbitrary meshes, `create_edges` adjacency on arbitrary connectivity), the JSON reader and the netCDF
+library / file format are outside the claim: see OUTSIDE.
 """
 import io
 import math
@@ -42,8 +45,9 @@ OUTSIDE = ('validity for ARBITRARY topologies (the quantifier of the property is
            'comparison, i.e. enumerate topologies); here its output is a concrete table per fixed topology, checked by ground facts and given its geometric meaning',
            'Mesh.combine_mesh / combine_blocks / combine_nodesets / combine_sidesets: covered by O8 (PX) for symbolic mesh sizes and symbolic set contents with small fixed numbers of '
            'sets and entries per set; larger numbers of sets/entries and degree > 1 meshes are outside',
-           'ReadMesh.read_json_mesh and ReadExodusMesh.read_exodus_mesh as file readers (JSON / netCDF C library, 1-based to 0-based bookkeeping, blocks, node and side '
-           'sets, element maps): not applicable; only the Tri6 node-order permutation is checked, through the real reader on an in-memory stand-in for the file',
+           'ReadMesh.read_json_mesh as a file reader (JSON; plain data movement into construct_mesh_from_basic_data): not applicable. ReadExodusMesh.read_exodus_mesh: the netCDF C '
+           'library and the file format stay outside; the reader\'s own bookkeeping is covered through in-memory stand-ins for the file: Tri6 node order on symbolic geometry (O5) and '
+           'multi-block files with symbolic block sizes, 1-based to 0-based conversion, block offsets, block maps, node and side sets, generated names (O9, PX)',
            'Surface.create_edges (Python-level branching on a user predicate of the coordinates) and create_nodesets_from_sidesets (numpy.unique)',
            'curved higher-order elements (the code places every new node on the straight-sided triangle), rounding error of evaluating the formulas in binary64')
 
@@ -59,8 +63,8 @@ DESIGNED_NOT_REGISTERED = [
     ('O3 for pairs of elements that share at most a vertex from "every element area >= a_min" alone',
      'not a theorem for open fans/strips (positive areas do not exclude overlap of non-adjacent elements) and, where it is one (closed fan), it needs a global winding argument that '
      'nlsat did not finish (10 reals, unknown at 10 s per pair); registered with the explicit separation hypothesis per candidate side (separating-axis theorem)'),
-    ('validity for arbitrary topologies, create_edges on arbitrary connectivity, the two file readers as readers',
-     'not applicable to solver-based checking (quantifier over topologies/files; integer bookkeeping behind numpy.sort/unique, JSON, netCDF): stated in OUTSIDE'),
+    ('validity for arbitrary topologies, create_edges on arbitrary connectivity, the JSON reader, the netCDF library / file format behind the Exodus reader',
+     'not applicable to solver-based checking (quantifier over topologies/files; integer bookkeeping behind numpy.sort/unique, JSON, netCDF C code): stated in OUTSIDE'),
 ]
 
 
@@ -600,7 +604,9 @@ def o5(h):
     simplex = sorted(int(v) for v in onp.asarray(m0.simplexNodesOrdinals))
     ground(h, 'exodus.simplexNodesOrdinals_are_the_corner_nodes', simplex == sorted(set(i for ids in EXO_IDS for i in ids[:3])), 'simplexNodesOrdinals %s' % simplex)
     ground(h, 'exodus.connectivity_in_range_all_nodes_used', sorted(set(g for row in conns0 for g in row)) == list(range(9)) and all(len(set(r)) == 6 for r in conns0), str(conns0))
+    exo_in_range = all(0 <= g < 9 for row in conns0 for g in row)
     head, rows, types, outn = vtk_cells(m0)
+    exo_in_range = exo_in_range and all(0 <= g < len(outn) for r in rows for g in r[1:]) and all(len(r) == 7 for r in rows)
     ground(h, 'exodus.vtk_cells_reproduce_the_file_order', [r[1:] for r in rows] == EXO_IDS and all(r[0] == 6 for r in rows) and types == [22, 22] and outn == list(range(9))
            and head[:2] == ['CELLS', '2'] and int(head[2]) == 14, 'VTK quadratic-triangle order equals the Exodus TRI6 order: written rows %s types %s header %s' % (rows, types, head))
 
@@ -623,7 +629,8 @@ def o5(h):
                 lhs += [v_abs(v_sub(XN[g][0], p[0])), v_abs(v_sub(XN[g][1], p[1]))]
         return box(V), [Le(lhs, TOL_NODE, name='native_node_k_at_affine_image_of_reference_node_k', scale=SC)] + \
             vtk_quadratic_atoms(XN, rows, [[V[k] for k in corners] for corners in EXO_CORNERS], '')
-    c.prove('exodus_tri6', spec, cap=40)
+    if exo_in_range:        # (out-of-range connectivity is reported by the ground facts above; the coordinate goals index the node array with it)
+        c.prove('exodus_tri6', spec, cap=40)
 
     # ---- VTK writer on meshes elevated by the real code
     cfgs = [(2, False), (3, False)] + ([(2, True), (4, False)] if h.thorough() else [])
@@ -1220,3 +1227,342 @@ def o8h(h):
     sc = dict(ns={'d': 1}, ss={'sf': 1}, bl={'bf': 1})
     px.run_px(h, 'two_merges_sharing_the_first_mesh', history_harness(sa, sb, sc), cap=30, order=('core',))
     px.run_px(h, 'two_merges_sharing_the_first_mesh_sets_only_in_partners', history_harness(dict(ns=None, ss=None, bl={'ba': 1}), sb, sc), cap=30, order=('core',))
+
+
+# ------------------------------------------------------------------------------------------ O9: Exodus reader on multi-block files (PX on the real source)
+# The REAL source of ReadExodusMesh.py is executed on an in-memory stand-in for netCDF4.Dataset whose element blocks have SYMBOLIC element counts n_b, whose node count is
+# symbolic, whose connectivity / coordinates / element map are known through generic rows at symbolic indices (any other row: a fresh unknown) and whose node / side sets
+# are tiny arrays of symbolic 1-based entries.  Replay: a real netCDF file with the model's sizes and values is written and read by the real optimism.ReadExodusMesh.
+NF_MAX = 2000           # sizes in [1, NF_MAX] (keeps replay files small; the arithmetic is linear)
+
+
+def _ite(c, a, b):
+    from .. import px
+    import z3
+    if isinstance(c, (bool, onp.bool_)):
+        return a if c else b
+    return px.SymReal(z3.If(c.z, px._z(a), px._z(b)))
+
+
+def _rows_sub(self, off):
+    return Rows('add', self.n, self.tail, child=self, off=-off)
+
+
+def _rows_getitem(self, key):
+    from .. import px
+    if isinstance(key, slice) and key.step is None:
+        a = 0 if key.start is None else key.start
+        b = self.n if key.stop is None else key.stop
+        # numpy clamps slice bounds to the extent (bounds are non-negative here); the comparisons fork only where both outcomes are feasible
+        lo = a if bool(a <= self.n) else self.n
+        hi = b if bool(b <= self.n) else self.n
+        n = hi - lo if bool(lo <= hi) else 0
+        return Rows('slice', n, self.tail, child=self, start=lo)
+    if isinstance(key, tuple) and len(key) == 2 and key[0] == slice(None) and len(self.tail) == 1:
+        cols = [int(v) for v in onp.asarray(key[1]).reshape(-1)]
+        return Rows('cols', self.n, (len(cols),), child=self, cols=cols)
+    raise px.Unsupported('indexing a placeholder array with %r' % (key,))
+
+
+def _rows_row(self, idx):
+    """generic-row semantics, extended: a base array may carry several witnesses; any other row is a fresh unknown"""
+    from .. import px
+    import z3
+    if self.kind == 'base':
+        wit = getattr(self, 'wits', None) or [(self.gi, self.w)]
+        for gi, w in wit:
+            if bool(gi == idx):          # decided under the path condition; forks only where both outcomes are feasible
+                return list(w)
+        return [px.SymReal(z3.FreshInt('unknown_entry')) for _ in range(len(wit[0][1]))]
+    if self.kind == 'slice':
+        return self.child.row(idx + self.start)
+    if self.kind == 'cols':
+        r = self.child.row(idx)
+        return [r[c] for c in self.cols]
+    if self.kind == 'colstack':
+        return [x for p in self.parts for x in p.row(idx)]
+    return _rows_row_merge(self, idx)
+
+
+_rows_row_merge = Rows.row
+Rows.row = _rows_row
+Rows.__sub__ = _rows_sub
+Rows.__getitem__ = _rows_getitem
+Rows.__plen__ = lambda self: self.n
+Rows.size = property(lambda self: self.n if not self.tail else self.n * int(onp.prod(self.tail)))
+SArr.__sub__ = lambda self, o: self._ew(-o)
+
+
+class _Dim:
+    def __init__(self, n):
+        self.n = n
+
+    def __plen__(self):
+        return self.n
+
+
+def _plen(x):
+    return x.__plen__() if hasattr(x, '__plen__') else len(x)
+
+
+class ReaderNP(MergeNP):
+    def arange(self, a, b=None, *r, **k):
+        if b is None:
+            return Rows('arange', a, ())
+        return Rows('add', b - a, (), child=Rows('arange', b - a, ()), off=a)
+
+    def vstack(self, arrs):
+        arrs = list(arrs)
+        if all(isinstance(a, Rows) for a in arrs):
+            return self.concatenate(arrs, axis=0)
+        return MergeNP.vstack(self, arrs)
+
+    def column_stack(self, arrs):
+        from .. import px
+        arrs = list(arrs)
+        if all(isinstance(a, Rows) and a.tail == () for a in arrs):
+            return Rows('colstack', arrs[0].n, (len(arrs),), parts=arrs)
+        if all(isinstance(a, SArr) and a.a.ndim == 1 for a in arrs) and len({a.a.shape[0] for a in arrs}) == 1:
+            out = onp.empty((arrs[0].a.shape[0], len(arrs)), dtype=object)
+            for c, a in enumerate(arrs):
+                out[:, c] = a.a
+            return SArr(out)
+        raise px.Unsupported('column_stack of %s' % [type(a).__name__ for a in arrs])
+
+    def __getattr__(self, name):
+        return getattr(onp, name)
+
+
+class _SymRec:
+    """stand-in for a netCDF4 variable in the symbolic run"""
+
+    def __init__(self, data, **attrs):
+        self._data = data
+        self.__dict__.update(attrs)
+
+    def set_auto_mask(self, flag):
+        pass
+
+    def __getitem__(self, key):
+        if key == slice(None):
+            return self._data
+        return self._data[key]
+
+
+class _SymDataset:
+    def __init__(self, dims, variables):
+        self.dimensions, self.variables = dims, variables
+
+    def __getitem__(self, k):
+        return self.variables[k]
+
+    def __enter__(self):
+        return self
+
+    def __exit__(self, *a):
+        return False
+
+
+EXO_SCENARIOS = [
+    ('one_block_tri3', dict(etype='TRI3', names=['solid'], emap=False, ns=None, ss=None)),
+    ('two_blocks_tri6_named_unnamed_with_sets', dict(etype='TRI6', names=['left', ''], emap=False, ns=[('fix', 2), ('', 1)], ss=[('', 2), ('load', 1)])),
+    ('three_blocks_tri3_element_map_sets', dict(etype='TRI3', names=['a', '', 'c'], emap=True, ns=[('', 1), ('top', 2)], ss=[('pull', 2)])),
+    ('four_blocks_tri3_unnamed', dict(etype='TRI3', names=['', '', '', ''], emap=False, ns=[('n1', 1)], ss=None)),
+    ('three_blocks_tri6_element_map', dict(etype='TRI6', names=['', 'mid', 'top'], emap=True, ns=None, ss=[('s', 1)])),
+]
+
+
+def _write_names(ds, var, dim, names):
+    v = ds.createVariable(var, 'S1', (dim, 'len_name'))
+    data = onp.zeros((len(names), 33), dtype='S1')
+    for i, nm in enumerate(names):
+        for j, ch in enumerate(nm):
+            data[i, j] = ch.encode()
+    v[:] = data
+
+
+def exodus_harness(spec):
+    npe = 3 if spec['etype'] == 'TRI3' else 6
+    nb = len(spec['names'])
+
+    def fn(ex):
+        from .. import px
+        symb = ex.symbolic
+        u = px.unwrap
+        nn = ex.int('num_nodes')
+        ex.assume((1 <= nn) & (nn <= NF_MAX))
+        jn = ex.int('inode')
+        ex.assume((0 <= jn) & (jn < nn))
+        xy = [ex.real('x'), ex.real('y')]
+        cnt, gi, rows = [], [], []
+        for b in range(nb):
+            n = ex.int('n_blk%d' % (b + 1))
+            i = ex.int('i_blk%d' % (b + 1))
+            ex.assume((1 <= n) & (n <= NF_MAX) & (0 <= i) & (i < n))
+            r = [ex.int('connect%d_%d' % (b + 1, c)) for c in range(npe)]
+            for v in r:
+                ex.assume((1 <= v) & (v <= nn))           # 1-based node ids of a well-formed file
+            cnt.append(n), gi.append(i), rows.append(r)
+        offs = [sum(cnt[:b]) if b else 0 for b in range(nb)]
+        total = sum(cnt)
+        emap = [ex.int('elem_num_map_at_blk%d' % (b + 1)) for b in range(nb)] if spec['emap'] else None
+        for v in emap or []:
+            ex.assume((1 <= v) & (v <= 10 * NF_MAX))
+
+        def draw(name, lo, hi):
+            v = ex.int(name)
+            ex.assume((lo <= v) & (v <= hi))
+            return v
+        ns = None if spec['ns'] is None else [(nm, [draw('node_ns%d_%d' % (k + 1, j), 1, nn) for j in range(L)]) for k, (nm, L) in enumerate(spec['ns'])]
+        ss = None if spec['ss'] is None else [(nm, [draw('elem_ss%d_%d' % (k + 1, j), 1, total) for j in range(L)], [draw('side_ss%d_%d' % (k + 1, j), 1, 3) for j in range(L)])
+                                              for k, (nm, L) in enumerate(spec['ss'])]
+        if symb:
+            R = px.load_module('optimism/ReadExodusMesh.py')
+            R.np = ReaderNP()
+            onp_shim = ReaderNP()
+            R.onp = onp_shim
+            R.len = _plen          # len(netCDF dimension) and len(array) may be symbolic integers here; the builtin insists on a Python int
+            if npe == 6:
+                # builds a Python set of the vertex ids (needs concrete connectivity): covered by O5 on concrete connectivity; here only its use is traced
+                R._get_vertex_nodes_from_exodus_tri6_mesh = lambda conns: Rows('base', ex.int('px_nvertex'), (), gi=0, w=[0])
+            dims = {'num_nodes': _Dim(nn), 'num_dim': _Dim(2), 'num_el_blk': _Dim(nb)}
+            var = {'coordx': _SymRec(_Masked(Rows('base', nn, (), gi=jn, w=[xy[0]]))), 'coordy': _SymRec(_Masked(Rows('base', nn, (), gi=jn, w=[xy[1]]))),
+                   'eb_names': _SymRec([[c.encode() for c in nm] or [b''] for nm in spec['names']])}
+            for b in range(nb):
+                dims['num_el_in_blk%d' % (b + 1)] = _Dim(cnt[b])
+                dims['num_nod_per_el%d' % (b + 1)] = _Dim(npe)
+                var['connect%d' % (b + 1)] = _SymRec(Rows('base', cnt[b], (npe,), gi=gi[b], w=rows[b]), elem_type=spec['etype'])
+            if emap is not None:
+                var['elem_num_map'] = _SymRec(Rows('base', total, (), wits=[(offs[b] + gi[b], [emap[b]]) for b in range(nb)]))
+            if ns is not None:
+                dims['num_node_sets'] = _Dim(len(ns))
+                var['ns_names'] = _SymRec([[c.encode() for c in nm] or [b''] for nm, _ in ns])
+                for k, (nm, vals) in enumerate(ns):
+                    var['node_ns%d' % (k + 1)] = _SymRec(SArr(vals))
+            if ss is not None:
+                dims['num_side_sets'] = _Dim(len(ss))
+                var['ss_names'] = _SymRec([[c.encode() for c in nm] or [b''] for nm, _, _ in ss])
+                for k, (nm, els, sides) in enumerate(ss):
+                    var['elem_ss%d' % (k + 1)] = _SymRec(SArr(els))
+                    var['side_ss%d' % (k + 1)] = _SymRec(SArr(sides))
+            fake = _SymDataset(dims, var)
+            R.netCDF4 = type('netCDF4_stand_in', (), {'Dataset': staticmethod(lambda fileName: fake)})
+            mesh = R.read_exodus_mesh('in-memory multi-block file')
+        else:
+            import importlib
+            import os
+            import netCDF4
+            R = importlib.import_module('optimism.ReadExodusMesh')
+            path = '/tmp/c13_replay_%d.exo' % os.getpid()
+            with netCDF4.Dataset(path, 'w', format='NETCDF3_64BIT_OFFSET') as ds:
+                ds.createDimension('len_name', 33)
+                ds.createDimension('num_dim', 2)
+                ds.createDimension('num_nodes', nn)
+                ds.createDimension('num_elem', total)
+                ds.createDimension('num_el_blk', nb)
+                cx, cy = onp.zeros(nn), onp.zeros(nn)
+                cx[jn], cy[jn] = xy
+                ds.createVariable('coordx', 'f8', ('num_nodes',))[:] = cx
+                ds.createVariable('coordy', 'f8', ('num_nodes',))[:] = cy
+                _write_names(ds, 'eb_names', 'num_el_blk', spec['names'])
+                for b in range(nb):
+                    k = str(b + 1)
+                    ds.createDimension('num_el_in_blk' + k, cnt[b])
+                    ds.createDimension('num_nod_per_el' + k, npe)
+                    v = ds.createVariable('connect' + k, 'i4', ('num_el_in_blk' + k, 'num_nod_per_el' + k))
+                    v.elem_type = spec['etype']
+                    data = onp.ones((cnt[b], npe), dtype=onp.int32)          # every other row: node 1 (valid)
+                    data[gi[b]] = rows[b]
+                    v[:] = data
+                if emap is not None:
+                    em = 20 * NF_MAX + onp.arange(total)                       # every other entry: a value no witness can take
+                    for b in range(nb):
+                        em[offs[b] + gi[b]] = emap[b]
+                    ds.createVariable('elem_num_map', 'i4', ('num_elem',))[:] = em
+                if ns is not None:
+                    ds.createDimension('num_node_sets', len(ns))
+                    _write_names(ds, 'ns_names', 'num_node_sets', [nm for nm, _ in ns])
+                    for k, (nm, vals) in enumerate(ns):
+                        ds.createDimension('num_nod_ns%d' % (k + 1), len(vals))
+                        ds.createVariable('node_ns%d' % (k + 1), 'i4', ('num_nod_ns%d' % (k + 1),))[:] = onp.array(vals, dtype=onp.int32)
+                if ss is not None:
+                    ds.createDimension('num_side_sets', len(ss))
+                    _write_names(ds, 'ss_names', 'num_side_sets', [nm for nm, _, _ in ss])
+                    for k, (nm, els, sides) in enumerate(ss):
+                        ds.createDimension('num_side_ss%d' % (k + 1), len(els))
+                        ds.createVariable('elem_ss%d' % (k + 1), 'i4', ('num_side_ss%d' % (k + 1),))[:] = onp.array(els, dtype=onp.int32)
+                        ds.createVariable('side_ss%d' % (k + 1), 'i4', ('num_side_ss%d' % (k + 1),))[:] = onp.array(sides, dtype=onp.int32)
+            try:
+                mesh = R.read_exodus_mesh(path)
+            finally:
+                os.remove(path)
+
+        def size_of(a):
+            return a.shape[0]
+
+        def at(a, idx):
+            if isinstance(a, Rows):
+                return a.row(idx)
+            a = onp.asarray(a)
+            if not 0 <= int(idx) < a.shape[0]:
+                return [float('nan')] * max(1, int(onp.prod(a.shape[1:])))
+            return [float(v) for v in onp.asarray(a[int(idx)]).reshape(-1)]
+        bnames = [nm or 'block_%d' % (b + 1) for b, nm in enumerate(spec['names'])]
+        perm = [int(v) for v in onp.asarray(R.exodusToNativeTri6NodeOrder)] if npe == 6 else list(range(3))
+        structure_ok = sorted(mesh.blocks) == sorted(bnames) and sorted(mesh.block_maps) == sorted(bnames)
+        ex.goal('block_names', Holds(structure_ok), info='blocks %s, block_maps %s, expected %s' % (sorted(mesh.blocks), sorted(mesh.block_maps), bnames))
+        ex.goal('sizes', Eq([u(size_of(mesh.conns)), u(size_of(mesh.coords))], [u(total), u(nn)]))
+        ex.goal('coordinates_in_file_order', Eq([u(x) for x in at(mesh.coords, jn)], [u(x) for x in xy]))
+        if structure_ok:
+            bs, be, lo, hi, cg, cw, ms, mg, mw = [], [], [], [], [], [], [], [], []
+            for b, nm in enumerate(bnames):
+                blk = mesh.blocks[nm]
+                e = at(blk, gi[b])[0]
+                bs += [u(size_of(blk))]
+                be += [u(e)]
+                lo.append(u(offs[b] + gi[b]))
+                hi.append(u(total - 1))
+                cg += [u(x) for x in at(mesh.conns, offs[b] + gi[b])]
+                cw += [u(rows[b][p] - 1) for p in perm]
+                bm = mesh.block_maps[nm]
+                ms.append(u(size_of(bm)))
+                mg += [u(x) for x in at(bm, gi[b])]
+                mw.append(u(emap[b]) if emap is not None else u(offs[b] + gi[b] + 1))
+            ex.goal('blocks_partition_the_elements_in_file_order', Eq(bs + be, [u(n) for n in cnt] + lo), info='block b = offset_b + arange(n_b), offset_b = sum of the previous counts')
+            ex.goal('blocks_index_existing_elements', Le([0] * nb + be, be + hi))
+            ex.goal('connectivity_rows_at_block_offset_zero_based_native_order', Eq(cg, cw))
+            ex.goal('connectivity_in_range', Le([0] * len(cg) + cg, cg + [u(nn - 1)] * len(cg)))
+            ex.goal('block_maps_are_the_element_map_slices', Eq(ms + mg, [u(n) for n in cnt] + mw))
+        if npe == 3:
+            ex.goal('simplexNodesOrdinals_are_all_nodes', Eq([u(size_of(mesh.simplexNodesOrdinals))] + [u(x) for x in at(mesh.simplexNodesOrdinals, jn)], [u(nn), u(jn)]))
+        want_ns = {} if ns is None else {(nm or 'nodeset_%d' % (k + 1)): (len(vals), [v - 1 for v in vals]) for k, (nm, vals) in enumerate(ns)}
+        want_ss = {} if ss is None else {(nm or 'sideset_%d' % (k + 1)): (len(els), [x for e_, s_ in zip(els, sides) for x in (e_ - 1, s_ - 1)]) for k, (nm, els, sides) in enumerate(ss)}
+        same_goal(ex, 'node_sets_zero_based_no_member_lost', snap_sets(mesh.nodeSets), want_ns, info='node sets')
+        same_goal(ex, 'side_sets_zero_based_no_member_lost', snap_sets(mesh.sideSets), want_ss, info='side sets')
+        range_goal(ex, 'node_sets_index_existing_nodes', snap_sets(mesh.nodeSets), [nn])
+        range_goal(ex, 'side_sets_index_existing_elements_and_sides', snap_sets(mesh.sideSets), [total, 3])
+    return fn
+
+
+@obligation(P, 'O9.exodus_reader_multi_block', cap=280)
+def o9(h):
+    """the real read_exodus_mesh on multi-block files with SYMBOLIC element counts per block: the blocks partition range(total) in file order, every connectivity row of block b sits at
+    offset_b + i with 0-based node ids (Tri6: native order), block_maps are the element-map slices, node / side sets become 0-based and lose no member, names of unnamed entities generated"""
+    from .. import px
+    from optimism import ReadExodusMesh as R
+    h.encoded(R.read_exodus_mesh, R._read_blocks, R._read_block_conns, R._read_block_maps, R._read_coordinates, R._read_node_sets, R._read_side_sets, R._read_element_type, R._read_names_list)
+    h.bounds('files with 1..4 element blocks (%s); element count of every block, node count: symbolic integers in [1, %d]; per block one generic connectivity row at a symbolic index '
+             '(1-based symbolic node ids in range), one generic node, element map known at the generic element of every block, up to 2 node sets / side sets with 1..2 symbolic 1-based entries'
+             % (', '.join(s[0] for s in EXO_SCENARIOS), NF_MAX))
+    h.outside(*(t for t in OUTSIDE if 'read_exodus_mesh' not in t),
+              'ReadMesh.read_json_mesh (JSON reader) as a file reader: not applicable',
+              'Exodus reader: the netCDF C library / file format, files whose blocks have different nodes-per-element or element types (the reader asserts), blocks or sets sharing a name, '
+              'empty sets, masked (missing) data, read_exodus_mesh_element_properties; Tri6 vertex-node extraction on symbolic connectivity (needs concrete ids: covered by O5)')
+    h.assume_note('PX: the real source of optimism/ReadExodusMesh.py is executed; module attributes replaced in the symbolic run: netCDF4 (in-memory stand-in exposing dimensions / variables), '
+                  'np and onp (arange / vstack / column_stack / array on arrays with a symbolic number of rows), len (len(dimension) / len(array) may be a symbolic integer; the builtin insists '
+                  'on a Python int), and for TRI6 _get_vertex_nodes_from_exodus_tri6_mesh (a Python set of concrete ids: O5)',
+                  'arrays with a symbolic number of rows are known at generic rows (symbolic index, symbolic content); any other row is a fresh unknown; numpy slice clamping is modelled',
+                  'replay: a REAL netCDF file (netCDF4 %s) with the model\'s sizes and values is written to /tmp and read by the real optimism.ReadExodusMesh.read_exodus_mesh'
+                  % __import__('netCDF4').__version__)
+    for name, spec in EXO_SCENARIOS:
+        px.run_px(h, name, exodus_harness(spec), cap=30, order=('core',))
